@@ -508,7 +508,11 @@ func genInput06(r *rand.Rand, kds func(*rand.Rand) []mKeyDesc) (c06Input, map[st
 }
 
 func runC06(c *Ctx) {
-	g := c.Group("resp", []string{"IdPModel"}, "c06case", "check_c06")
+	// the case terms are large (whole responses); several groups so that the shards evaluate in parallel
+	var gs []*Group
+	for i := 0; i < 8; i++ {
+		gs = append(gs, c.Group(fmt.Sprintf("resp%d", i), []string{"IdPModel"}, "c06case", "check_c06"))
+	}
 	n := 700
 	if c.Thorough() {
 		n = 12000
@@ -522,6 +526,6 @@ func runC06(c *Ctx) {
 			key["signer"] = "Key"
 		}
 		key["kds"] = fmt.Sprint(len(in.md.Descs[0].KDs))
-		c06Emit(c, g, in, key)
+		c06Emit(c, gs[i%len(gs)], in, key)
 	}
 }
